@@ -49,6 +49,12 @@ pub enum Kind {
     PeginGenesis,
     PeginClaimScript,
     PeginValue,
+    PeginWitness,
+    IssuanceValueRangeproof,
+    IssuanceKeysRangeproof,
+    IssuanceBlindValueProof,
+    IssuanceBlindKeysProof,
+    BlindedIssuance,
     // output, map-valued
     OutBip32,
     OutTapKeyOrigin,
@@ -61,6 +67,8 @@ pub enum Kind {
     OutTapTree,
     OutValueProof,
     OutAssetProof,
+    OutRangeproof,
+    OutSurjectionProof,
     // global
     GlobalXpub,
     GlobalScalar,
@@ -75,8 +83,10 @@ pub const INPUT_KINDS: &[Kind] = &[
     Kind::NonWitnessUtxo, Kind::WitnessUtxo, Kind::SighashType, Kind::RedeemScript, Kind::WitnessScript, Kind::FinalScriptSig, Kind::FinalScriptWitness, Kind::Sequence, Kind::TapKeySig,
     Kind::TapInternalKey, Kind::TapMerkleRoot, Kind::InUtxoRangeproof, Kind::InAmount, Kind::InAsset, Kind::InValueProof, Kind::InAssetProof, Kind::PeginTx, Kind::PeginTxoutProof, Kind::PeginGenesis,
     Kind::PeginClaimScript, Kind::PeginValue,
+    // witness-side and bookkeeping fields that do not change the unsigned transaction either
+    Kind::PeginWitness, Kind::IssuanceValueRangeproof, Kind::IssuanceKeysRangeproof, Kind::IssuanceBlindValueProof, Kind::IssuanceBlindKeysProof, Kind::BlindedIssuance,
 ];
-pub const OUTPUT_KINDS: &[Kind] = &[Kind::OutBip32, Kind::OutTapKeyOrigin, Kind::OutProprietary, Kind::OutUnknown, Kind::OutRedeemScript, Kind::OutWitnessScript, Kind::OutTapInternalKey, Kind::OutTapTree, Kind::OutValueProof, Kind::OutAssetProof];
+pub const OUTPUT_KINDS: &[Kind] = &[Kind::OutBip32, Kind::OutTapKeyOrigin, Kind::OutProprietary, Kind::OutUnknown, Kind::OutRedeemScript, Kind::OutWitnessScript, Kind::OutTapInternalKey, Kind::OutTapTree, Kind::OutValueProof, Kind::OutAssetProof, Kind::OutRangeproof, Kind::OutSurjectionProof];
 pub const GLOBAL_KINDS: &[Kind] = &[Kind::GlobalXpub, Kind::GlobalScalar, Kind::GlobalProprietary, Kind::GlobalUnknown, Kind::GlobalTxModifiable, Kind::GlobalElementsModifiable];
 
 impl Kind {
@@ -369,6 +379,12 @@ fn apply(ps: &mut Pset, a: &Addition, case_seed: u64) -> Option<(String, Present
         Kind::PeginGenesis => inp_single!(pegin_genesis_hash, elements::BlockHash::from_byte_array(p.arr32())),
         Kind::PeginClaimScript => inp_single!(pegin_claim_script, gen::script(&mut p, 40)),
         Kind::PeginValue => inp_single!(pegin_value, p.u64()),
+        Kind::PeginWitness => inp_single!(pegin_witness, gen::witness_stack(&mut p, 4, 60)),
+        Kind::IssuanceValueRangeproof => inp_single!(issuance_value_rangeproof, Box::new(p.pick(&pl.rangeproofs).clone())),
+        Kind::IssuanceKeysRangeproof => inp_single!(issuance_keys_rangeproof, Box::new(p.pick(&pl.rangeproofs).clone())),
+        Kind::IssuanceBlindValueProof => inp_single!(in_issuance_blind_value_proof, Box::new(p.pick(&pl.rangeproofs).clone())),
+        Kind::IssuanceBlindKeysProof => inp_single!(in_issuance_blind_inflation_keys_proof, Box::new(p.pick(&pl.rangeproofs).clone())),
+        Kind::BlindedIssuance => inp_single!(blinded_issuance, p.u8()),
         Kind::OutBip32 => {
             let k = psetgen::btc_pubkey(&mut p);
             let v = ks_for(&k.to_bytes());
@@ -402,6 +418,17 @@ fn apply(ps: &mut Pset, a: &Addition, case_seed: u64) -> Option<(String, Present
         }
         Kind::OutValueProof => out_single!(blind_value_proof, Box::new(p.pick(&pl.rangeproofs).clone())),
         Kind::OutAssetProof => out_single!(blind_asset_proof, Box::new(p.pick(&pl.surjproofs).clone())),
+        // proofs on an output that is not marked for blinding (on a marked one the format demands all blinding data or none)
+        Kind::OutRangeproof | Kind::OutSurjectionProof => {
+            if n_out == 0 || ps.outputs()[a.index % n_out].blinding_key.is_some() {
+                return None;
+            }
+            if a.kind == Kind::OutRangeproof {
+                out_single!(value_rangeproof, Box::new(p.pick(&pl.rangeproofs).clone()))
+            } else {
+                out_single!(asset_surjection_proof, Box::new(p.pick(&pl.surjproofs).clone()))
+            }
+        }
         Kind::GlobalXpub => {
             // a fresh xpub per addition seed; key source is a function of the xpub
             use elements::bitcoin::bip32::{Xpriv, Xpub};
